@@ -412,6 +412,42 @@ func aliasPairs(fn *ssa.Function) map[string]string {
 			}
 		}
 	}
+	// the same step in a function of the package the parser calls: if name == "k" { return "v" }
+	for _, b := range fn.Blocks {
+		for _, in := range b.Instrs {
+			call, ok := in.(*ssa.Call)
+			if !ok {
+				continue
+			}
+			h := call.Call.StaticCallee()
+			if h == nil || h.Pkg != fn.Pkg || h.Blocks == nil || h == fn || h.Signature.Results().Len() != 1 {
+				continue
+			}
+			for _, hb := range h.Blocks {
+				iff, ok := hb.Instrs[len(hb.Instrs)-1].(*ssa.If)
+				if !ok {
+					continue
+				}
+				bo, ok := iff.Cond.(*ssa.BinOp)
+				if !ok || bo.Op != token.EQL {
+					continue
+				}
+				if _, isParam := bo.X.(*ssa.Parameter); !isParam {
+					continue
+				}
+				k, ok := constString(bo.Y)
+				if !ok {
+					continue
+				}
+				succ := hb.Succs[0]
+				if ret, ok := succ.Instrs[len(succ.Instrs)-1].(*ssa.Return); ok && len(ret.Results) == 1 {
+					if v, ok := constString(ret.Results[0]); ok {
+						out[k] = v
+					}
+				}
+			}
+		}
+	}
 	return out
 }
 
